@@ -266,5 +266,5 @@ func (w *World) checkJsonScheduling(P string, pull *ssa.Function) {
 	})
 	w.check(P, "R16.4", "scalar in object state: key", pull.Pos(), keyOK, fmt.Sprintf("when a key is expected the flag is cleared and an element node is returned: %v", keyOK))
 	w.check(P, "R16.4", "scalar in object state: value", pull.Pos(), valOK, fmt.Sprintf("when a value is expected the state returns to expecting a key and the member's end is scheduled: %v", valOK))
-	w.floor(P, "R16.4", 7)
+	w.floorSites(P, "R16.4", 7)
 }
